@@ -461,6 +461,8 @@ Definition side_cold_ok (o : obs) (rc : nat) : bool :=
 Definition sorted_hot_ok (o : obs) : bool := asc_levels (map u_tmaxs (rev (o_hus o))).
 Definition sorted_cold_ok (o : obs) : bool := asc_levels (map (fun u => - u_tmins u) (o_cus o)).
 
+Fixpoint distinct_q (l : list Q) : bool :=
+  match l with [] => true | x :: r => negb (existsb (qeqb x) r) && distinct_q r end.
 (* C04 predicate: 35 H_ut < 0, 36 H_ut > H_np, 37 / 38 closed-form optimum (hot / cold side),
    39 the utility profile is not the step form of the duties (clear ladders) *)
 Definition c04_codes (o : obs) : list Z :=
@@ -469,18 +471,20 @@ Definition c04_codes (o : obs) : list Z :=
   let cl := fun a b => close_abs (eps6 * sc) a b in
   (if feas_lo eps6 sc (o_Hut o) then [] else [35%Z])
   ++ (if feas_hi eps6 sc (o_Hut o) (o_HA o) then [] else [36%Z])
-  ++ (if negb (side_hot_ok o rh) then []
-      else if forallb2 cl (spec_hot tol (o_T o) (o_HA o) rh (o_hus o)) (o_dh o)
-              && (negb (sorted_hot_ok o)
-                  || forallb2 (fun u q => cl (lookup_level (u_tmaxs u) (spec_sorted_hot tol (o_T o) (o_HA o) rh (o_hus o))) q)
-                              (o_hus o) (o_dh o))
-           then [] else [37%Z])
-  ++ (if negb (side_cold_ok o rc) then []
-      else if forallb2 cl (spec_cold tol (o_T o) (cold_demand (o_HA o) rc) rc (o_cus o)) (o_dc o)
-              && (negb (sorted_cold_ok o)
-                  || forallb2 (fun u q => cl (lookup_level (u_tmins u) (spec_sorted_cold tol (o_T o) (cold_demand (o_HA o) rc) rc (o_cus o))) q)
-                              (o_cus o) (o_dc o))
-           then [] else [38%Z])
+  ++ (let srt := forallb2 (fun u q => cl (lookup_level (u_tmaxs u) (spec_sorted_hot tol (o_T o) (o_HA o) rh (o_hus o))) q)
+                          (o_hus o) (o_dh o) in
+      if negb (side_hot_ok o rh) then []
+      else if negb (forallb2 cl (spec_hot tol (o_T o) (o_HA o) rh (o_hus o)) (o_dh o)) then [37%Z]
+      else if sorted_hot_ok o then (if srt then [] else [37%Z])
+      (* the loop visits the utilities by REAL supply temperature; with different contributions that is not the order of their
+         shifted levels: the duties follow the code's order (checked above) but are not lowest-grade-first (finding D61) *)
+      else if distinct_q (map u_tmaxs (o_hus o)) && negb srt then [45%Z] else [])
+  ++ (let srt := forallb2 (fun u q => cl (lookup_level (u_tmins u) (spec_sorted_cold tol (o_T o) (cold_demand (o_HA o) rc) rc (o_cus o))) q)
+                          (o_cus o) (o_dc o) in
+      if negb (side_cold_ok o rc) then []
+      else if negb (forallb2 cl (spec_cold tol (o_T o) (cold_demand (o_HA o) rc) rc (o_cus o)) (o_dc o)) then [38%Z]
+      else if sorted_cold_ok o then (if srt then [] else [38%Z])
+      else if distinct_q (map u_tmins (o_cus o)) && negb srt then [46%Z] else [])
   ++ (if negb (side_hot_ok o rh && side_cold_ok o rc) then []
       else if forallb2 (fun x h => cl (hut_step x (o_hus o) (o_cus o) (o_dh o) (o_dc o)) h) (o_T o) (o_Hut o)
            then [] else [39%Z]).
